@@ -475,3 +475,31 @@ def Sentence.fillTags (env : Nat → Option Predictor) (s : Sentence) : Res Sent
     | none => .ok s
 
 end V
+
+namespace V
+
+/-- the loop of `Token::tag_candidates` over the categories: a single candidate is reported with score 0,
+otherwise every candidate with `scores[i]` (a checked index), `i` running over the trainable classes -/
+def candidatesLoop : List (List (List Char)) → List Int → Nat → Res (List (List (List Char × Int)))
+  | [], _, _ => .ok []
+  | cands :: r, scores, i =>
+    if cands.length = 1 then
+      match candidatesLoop r scores i with
+      | .ok rest => .ok ([(cands.headD [], 0)] :: rest)
+      | e => e
+    else if i + cands.length ≤ scores.length then
+      match candidatesLoop r scores (i + cands.length) with
+      | .ok rest => .ok ((cands.zip ((scores.drop i).take cands.length)) :: rest)
+      | e => e
+    else .panic "tag_candidates: scores[i]"
+
+/-- `Token::tag_candidates()` of the token that ends at character `en` -/
+def Sentence.tagCandidates (s : Sentence) (en : Nat) : Res (List (List (List Char × Int))) :=
+  if s.tagScores.isEmpty then .panic "Predictor::store_tag_scores() must be set to true to use this function."
+  else
+    match s.tagScores[en - 1]? with
+    | none => .panic "tag_scores[self.end - 1]"
+    | some none => .ok []
+    | some (some (tags, scores)) => candidatesLoop tags scores 0
+
+end V
